@@ -187,7 +187,7 @@ func concretise(w *worldFile, abstract []byte) []byte {
 		}
 		t, ok := typeReg[d.Type]
 		if !ok {
-			panic("native replay: type " + d.Type + " not registered (verif.RegisterType)")
+			continue
 		}
 		nv := reflect.New(t)
 		fill(nv.Elem(), "_"+shortType(d.Type), d.Fields)
